@@ -56,6 +56,7 @@ type FuncSpec struct {
 	Loops    map[int]*LoopSpec
 	Flags    map[string]string
 	Sites    []*SiteSpec
+	GhostSets []*SiteSpec
 	Line     int
 	File     string
 }
@@ -69,15 +70,18 @@ type SiteSpec struct {
 	Kind   string // assert | ghost | assume-unreachable
 	Ghost  string
 	C      *Clause
+	Used   bool
 }
 
 type SpecParam struct{ Name, Type string }
 
 type SpecFunc struct {
-	Name   string
-	Params []SpecParam
-	Result string
-	Body   *Clause
+	Name     string
+	Params   []SpecParam
+	Result   string
+	Body     *Clause
+	Uninterp bool
+	Rec      bool
 }
 
 type GhostVar struct {
@@ -174,6 +178,11 @@ func (ss *SpecSet) loadFile(path, pkgPath string) error {
 			cur = nil
 		case "load":
 			cur = nil // extra root package; handled by discoverContracts
+		case "package":
+			// assumed contracts on dependencies: switch the package the following
+			// blocks are keyed under
+			pkgPath = strings.TrimSpace(rest)
+			cur = nil
 		case "lemma":
 			// lemma NAME [bv|int]: expr
 			cur = nil
@@ -197,6 +206,23 @@ func (ss *SpecSet) loadFile(path, pkgPath string) error {
 			ss.Lemmas = append(ss.Lemmas, lm)
 		case "spec":
 			w2, r2 := splitWord(rest)
+			if w2 == "ufunc" {
+				// uninterpreted specification function: spec ufunc name(a T) R
+				sf, err := parseSpecFunc(r2 + " = true")
+				if err != nil {
+					return fmt.Errorf("%s:%d: %v", path, ln, err)
+				}
+				sf.Uninterp = true
+				sf.Body = nil
+				ss.SpecFuncs[pkgPath+"::"+sf.Name] = sf
+				cur = nil
+				continue
+			}
+			isRec := false
+			if w2 == "rec" {
+				isRec = true
+				w2, r2 = splitWord(r2)
+			}
 			if w2 != "func" {
 				return fmt.Errorf("%s:%d: expected 'spec func'", path, ln)
 			}
@@ -204,6 +230,7 @@ func (ss *SpecSet) loadFile(path, pkgPath string) error {
 			if err != nil {
 				return fmt.Errorf("%s:%d: %v", path, ln, err)
 			}
+			sf.Rec = isRec
 			c, err := mkClause(sf.Body.Text, ln)
 			if err != nil {
 				return err
@@ -214,6 +241,19 @@ func (ss *SpecSet) loadFile(path, pkgPath string) error {
 		case "ghost":
 			// ghost var name T [= init]
 			w2, r2 := splitWord(rest)
+			if w2 != "var" && cur != nil {
+				// function-level ghost update: ghost name = expr (at function exit)
+				j := strings.Index(rest, "=")
+				if j < 0 {
+					return fmt.Errorf("%s:%d: ghost update needs '='", path, ln)
+				}
+				c, err := mkClause(strings.TrimSpace(rest[j+1:]), ln)
+				if err != nil {
+					return err
+				}
+				cur.GhostSets = append(cur.GhostSets, &SiteSpec{Kind: "ghost", Ghost: strings.TrimSpace(rest[:j]), C: c})
+				continue
+			}
 			if w2 != "var" {
 				return fmt.Errorf("%s:%d: expected 'ghost var'", path, ln)
 			}
@@ -325,6 +365,17 @@ func (ss *SpecSet) loadFile(path, pkgPath string) error {
 				}
 				st.C = c
 				cur.Sites = append(cur.Sites, st)
+			case "ghost":
+				// ghost name = expr : ghost variable updated at function exit
+				j := strings.Index(rest, "=")
+				if j < 0 {
+					return fmt.Errorf("%s:%d: ghost update needs '='", path, ln)
+				}
+				c, err := mkClause(strings.TrimSpace(rest[j+1:]), ln)
+				if err != nil {
+					return err
+				}
+				cur.GhostSets = append(cur.GhostSets, &SiteSpec{Kind: "ghost", Ghost: strings.TrimSpace(rest[:j]), C: c})
 			default:
 				cur.Flags[word] = strings.TrimSpace(rest)
 			}
